@@ -284,6 +284,25 @@ impl Property for C18 {
                     }
                 }
             }
+            // the same object on both sides (&n op &n) must equal the operation on two separate
+            // copies of it
+            for owned in [false, true] {
+                match catch(|| (container_bin(op, &na, &na, owned), container_bin(op, &na, &na.clone(), owned))) {
+                    Ok((same_obj, copies)) => {
+                        if !same_number(&same_obj, &copies) {
+                            v.fail(
+                                format!("container {} | an operand combined with itself differs from two copies of it", opname),
+                                format!("{} {} itself: {} vs {} with a clone", show(&na), opname, show(&same_obj), show(&copies)),
+                            );
+                            return v;
+                        }
+                    }
+                    Err(p) => {
+                        v.fail(format!("container {} | panic on a valid pairing | {}", opname, p.site()), p.message);
+                        return v;
+                    }
+                }
+            }
             // a first-order number against the second-order number DERIVED from it (and the other way
             // round): the two share one variable-list allocation, which must not make the pairing
             // acceptable
